@@ -507,6 +507,7 @@ func (x *codecExplorer) explore() {
 		x.tailFamily(m)
 		x.depFamily(m)
 		x.contentFamily(m)
+		x.relationFamily(m)
 		// depth 1: full token alphabet
 		full1 := optTokens(m, true)
 		min1 := optTokens(m, false)
